@@ -86,7 +86,8 @@ WORLD_B_COMPONENTS = {
                   "processes, pipes, poll/wait4/kill (simproc)", "thread scheduling and clock (detsched)"],
     "stub": ["the compiler: /sim/bin/cc is a deterministic simulated tool (reads inputs and #include lines, writes hashed outputs and "
              "dependency files with the documented escaping)"],
-    "not_run": ["clang/swift/archive/shared-library tools (mkdir and symlink tools run in C08/C09/C10)", "lib/Commands", "lib/Ninja"],
+    "not_run": ["clang/swift/archive/shared-library tools (mkdir and symlink tools run in C08/C09/C10)", "lib/Ninja",
+                "lib/Commands except BuildSystemCommand.cpp's build command, which 15% of the C08/C09/C10 runs go through"],
 }
 ASSUME_B = [
     "a build op runs in a new frontend (new client process) or, for about 30% of build ops, in the previous build's frontend (reused BuildSystem)",
